@@ -1,4 +1,5 @@
 import Marwood.Vm.Eval
+import Marwood.Lemmas.StackWFToy
 /-!
 # C07 — a failed evaluation leaves no trace beyond its completed effects
 
@@ -22,18 +23,26 @@ theorem onError_quiescent (s : St H) : Quiescent (onError s) := by
   simp only [onError] at hc
   exact (List.mem_replicate.mp hc).2
 
+theorem Quiescent.gc {gc : St H → St H} (hg : GcRegs gc) {s : St H} (h : Quiescent s) : Quiescent (gc s) := by
+  obtain ⟨g1, g2, g3, g4, _, _⟩ := hg s
+  obtain ⟨h1, h2, h3, h4, h5⟩ := h
+  exact ⟨by rw [g1]; exact h1, by rw [g4]; exact h2, by rw [g3]; exact h3, by rw [g2]; exact h4,
+    by rw [g1]; exact h5⟩
+
 /-- T07.1: whatever the program, the depth at which it failed and the kind of failure, after a
     failed `run_count` the registers and the stack are those of an idle VM, the stack capacity is
-    the capacity the failed evaluation needed, and the heap is exactly the heap at the failing
-    instruction — the completed definitions and mutations, nothing else. -/
+    the capacity the failed evaluation needed, and the heap is the heap at the failing instruction
+    — the completed definitions and mutations, nothing else — after the collection that ends the
+    error path (`hg`: the collector touches only the heap). -/
 theorem failed_eval_resets (ops : HeapOps H) (gc : St H → St H) (count : Option Nat) (fuel : Nat)
-    (s : St H) (f : Fault) (s' : St H) (h : runEval ops gc count fuel s = .failed f s') :
+    (s : St H) (f : Fault) (s' : St H) (h : runEval ops gc count fuel s = .failed f s')
+    (hg : GcRegs gc) :
     Quiescent s' ∧ ∃ sf, runLoop ⟨vmStep ops, gc⟩ count fuel 0 s = .error f sf ∧
-      s'.heap = sf.heap ∧ s'.stack.cells.length = sf.stack.cells.length := by
+      s'.heap = (gc (onError sf)).heap ∧ s'.stack.cells.length = sf.stack.cells.length := by
   unfold runEval at h
   split at h <;> try (cases h)
   rename_i sf hr
-  exact ⟨onError_quiescent sf, sf, hr, rfl, by simp [onError]⟩
+  exact ⟨(onError_quiescent sf).gc hg, sf, hr, rfl, by rw [(hg _).1]; simp [onError]⟩
 
 /-- T07.3: a quiescent stack holds no return addresses, so the stack trace of any later failure
     lists only frames pushed by the evaluation that failed. -/
@@ -74,7 +83,7 @@ def Balanced (ops : HeapOps H) (gc : St H → St H) : Prop :=
 /-- T07.2: for every history — any interleaving of succeeding and failing evaluations, any number
     of consecutive failures — the stack pointer between evaluations is 0: failures never
     accumulate stack depth (unconditionally, by T07.1); successes return to 0 by `Balanced`. -/
-theorem sp_zero_between_evaluations (ops : HeapOps H) (gc : St H → St H)
+theorem sp_zero_between_evaluations (ops : HeapOps H) (gc : St H → St H) (hg : GcRegs gc)
     (hB : Balanced ops gc) : ∀ (js : List Job) (s : St H), s.stack.sp = 0 →
       (runHistory ops gc js s).stack.sp = 0 := by
   intro js
@@ -86,7 +95,7 @@ theorem sp_zero_between_evaluations (ops : HeapOps H) (gc : St H → St H)
     split
     · rename_i s' hr; exact ih s' (hB s j.entry j.fuel s' h hr)
     · rename_i f s' hr
-      exact ih s' (failed_eval_resets ops gc none j.fuel _ f s' hr).1.1
+      exact ih s' (failed_eval_resets ops gc none j.fuel _ f s' hr hg).1.1
     · rename_i s' hr
       -- `run()` has no budget, so it never pauses
       exfalso
@@ -108,8 +117,8 @@ theorem sp_zero_between_evaluations (ops : HeapOps H) (gc : St H → St H)
       exact this _ _ _ _ hp
     · exact ih s h
 
-/-- k consecutive failures: no hypothesis at all. After each one the VM is quiescent. -/
-theorem consecutive_failures_quiescent (ops : HeapOps H) (gc : St H → St H) :
+/-- k consecutive failures: no hypothesis about the programs. After each one the VM is quiescent. -/
+theorem consecutive_failures_quiescent (ops : HeapOps H) (gc : St H → St H) (hg : GcRegs gc) :
     ∀ (js : List Job) (s : St H), Quiescent s →
       (∀ j ∈ js, ∀ s0, ∃ f s', runEval ops gc none j.fuel (prepare s0 j.entry) = .failed f s') →
       Quiescent (runHistory ops gc js s) := by
@@ -120,7 +129,7 @@ theorem consecutive_failures_quiescent (ops : HeapOps H) (gc : St H → St H) :
     intro s _ hall
     obtain ⟨f, s', hf⟩ := hall j (by simp) s
     simp only [runHistory, hf]
-    exact ih s' (failed_eval_resets ops gc none j.fuel _ f s' hf).1
+    exact ih s' (failed_eval_resets ops gc none j.fuel _ f s' hf hg).1
       (fun j' hj' => hall j' (by simp [hj']))
 
 /-! ### non-vacuity -/
@@ -157,5 +166,126 @@ example : ∃ f s', runEval toyOps id none 10 toyState = .failed f s' ∧ Quiesc
   refine ⟨.err .invalidBytecode, onError toyState, rfl, onError_quiescent _⟩
 
 example : ∃ s', runEval toyOps id none 10 (prepare toyState 7) = .value s' := ⟨_, rfl⟩
+
+/-- the hypothesis about the collector is satisfiable (trivially by the collector that does nothing;
+    `run_gc` satisfies it because it never writes the stack or a register) -/
+example : GcRegs (id : St Unit → St Unit) := fun _ => ⟨rfl, rfl, rfl, rfl, rfl, rfl⟩
+
+/-! ## `Balanced` as a theorem (WF-stack, `Lemmas/StackWF*.lean`)
+
+The hypothesis `Balanced` of `sp_zero_between_evaluations` is discharged for code the bytecode
+verifier accepts: under the heap laws `CodeLaws` (what the generic heap must satisfy) and `GcLaws`
+(what the collector must satisfy), an evaluation that starts in verified entry code at the entry
+stack pointer and reaches HALT has `sp` back at the entry stack pointer. -/
+
+/-- `run()` has no budget: the loop never pauses -/
+theorem runLoop_none_not_paused (ops : HeapOps H) (gc : St H → St H) :
+    ∀ (f c : Nat) (s x : St H), runLoop ⟨vmStep ops, gc⟩ none f c s ≠ .paused x := by
+  intro f
+  induction f with
+  | zero => intro c s x; simp [runLoop]
+  | succ f ihf =>
+    intro c s x
+    simp only [runLoop]
+    split
+    · simp
+    · simp
+    · simp only [reduceCtorEq, if_false]; exact ihf _ _ _
+
+/-- the entry lambda `prepare_eval` produced is verified entry code (in every reachable heap) -/
+def EntryOK {ops : HeapOps H} (cl : CodeLaws ops) (entry : Nat) : Prop :=
+  ∀ h, cl.HInv h → ∃ t, tyOf (cl.code h) entry = some t ∧ t.entry = true
+
+/-- no evaluation in progress, as far as the stack discipline is concerned -/
+def Idle {ops : HeapOps H} (cl : CodeLaws ops) (s : St H) : Prop :=
+  cl.HInv s.heap ∧ s.stack.sp = cl.e ∧ s.stack.sp < s.stack.cells.length
+
+/-- **`Balanced`, proved**: a successful evaluation of verified code returns `sp` to its entry value. -/
+theorem balanced_of_verified {ops : HeapOps H} (cl : CodeLaws ops) {gc : St H → St H} (gl : GcLaws cl gc)
+    (s : St H) (entry fuel : Nat) (s' : St H) (hidle : Idle cl s) (hentry : EntryOK cl entry)
+    (hr : runEval ops gc none fuel (prepare s entry) = .value s') : Idle cl s' := by
+  obtain ⟨t, ht, hent⟩ := hentry s.heap hidle.1
+  have hw := WFS.initial (entry := entry) hidle.1 ht hent hidle.2.1 hidle.2.2
+  have key := runLoop_wf gl none fuel 0 (prepare s entry) [] hw
+  unfold runEval at hr
+  split at hr <;> try (cases hr)
+  rename_i sd hd
+  rw [hd] at key
+  obtain ⟨k1, k2, k3⟩ := key
+  obtain ⟨g1, _, _, _⟩ := gl.frame (onDone sd)
+  refine ⟨gl.inv _ k2, ?_, ?_⟩
+  · rw [g1]; exact k1
+  · rw [g1]; simpa [onDone, Stack.clear] using k3
+
+/-- a failed evaluation of verified code leaves an idle machine, too (T07.1 + the heap invariant) -/
+theorem failed_idle {ops : HeapOps H} (cl : CodeLaws ops) (he : cl.e = 0) {gc : St H → St H} (gl : GcLaws cl gc)
+    (s : St H) (entry fuel : Nat) (f : Fault) (s' : St H) (hidle : Idle cl s) (hentry : EntryOK cl entry)
+    (hr : runEval ops gc none fuel (prepare s entry) = .failed f s') : Idle cl s' := by
+  obtain ⟨t, ht, hent⟩ := hentry s.heap hidle.1
+  have hw := WFS.initial (entry := entry) hidle.1 ht hent hidle.2.1 hidle.2.2
+  have key := runLoop_wf gl none fuel 0 (prepare s entry) [] hw
+  unfold runEval at hr
+  split at hr <;> try (cases hr)
+  rename_i sf hd
+  rw [hd] at key
+  obtain ⟨k1, k2⟩ := key
+  obtain ⟨g1, _, _, _⟩ := gl.frame (onError sf)
+  refine ⟨gl.inv (onError sf) k1, by rw [g1, he]; rfl, ?_⟩
+  rw [g1]
+  show 0 < (List.replicate sf.stack.cells.length VCell.undefined).length
+  simp; omega
+
+/-- **T07.2 without the `Balanced` hypothesis**: for every history of evaluations of verified code —
+    any interleaving of successes and failures — the machine is idle between evaluations; with the
+    entry stack pointer 0 (the real VM's), `sp = 0` between evaluations. -/
+theorem sp_zero_between_evaluations_verified {ops : HeapOps H} (cl : CodeLaws ops) (he : cl.e = 0)
+    {gc : St H → St H} (gl : GcLaws cl gc) : ∀ (js : List Job) (s : St H),
+      (∀ j ∈ js, EntryOK cl j.entry) → Idle cl s →
+      Idle cl (runHistory ops gc js s) ∧ (runHistory ops gc js s).stack.sp = 0 := by
+  intro js
+  induction js with
+  | nil => intro s _ h; exact ⟨h, by show s.stack.sp = 0; rw [h.2.1, he]⟩
+  | cons j js ih =>
+    intro s hall h
+    have hj := hall j (by simp)
+    have hrest : ∀ j' ∈ js, EntryOK cl j'.entry := fun j' hj' => hall j' (by simp [hj'])
+    simp only [runHistory]
+    split
+    · rename_i s' hr
+      exact ih s' hrest (balanced_of_verified cl gl s j.entry j.fuel s' h hj hr)
+    · rename_i f s' hr
+      exact ih s' hrest (failed_idle cl he gl s j.entry j.fuel f s' h hj hr)
+    · rename_i s' hr
+      exfalso
+      unfold runEval at hr
+      split at hr <;> try (cases hr)
+      rename_i sp hp
+      exact runLoop_none_not_paused ops gc _ _ _ _ hp
+    · exact ih s hrest h
+
+/-- the old formulation follows: on idle machines running verified entry code, `Balanced` holds -/
+theorem balanced_sp {ops : HeapOps H} (cl : CodeLaws ops) (he : cl.e = 0) {gc : St H → St H} (gl : GcLaws cl gc)
+    (s : St H) (entry fuel : Nat) (s' : St H) (hi : cl.HInv s.heap) (hcap : 0 < s.stack.cells.length)
+    (hentry : EntryOK cl entry) (hsp : s.stack.sp = 0)
+    (hr : runEval ops gc none fuel (prepare s entry) = .value s') : s'.stack.sp = 0 := by
+  have := balanced_of_verified cl gl s entry fuel s' ⟨hi, by rw [hsp, he], by rw [hsp]; exact hcap⟩ hentry hr
+  rw [this.2.1, he]
+
+/-! ### non-vacuity: a concrete verified program (`Lemmas/StackWFToy.lean`): entry code
+`PUSHIMM argc0; MOVIMM λ2 acc; CALL; HALT` calling `λ2 = ENTER; MOVIMM void acc; RET` -/
+
+open Marwood.Vm.Toy in
+example : Idle Toy.laws Toy.idle ∧ EntryOK Toy.laws 1 :=
+  ⟨⟨trivial, rfl, by decide⟩, fun _ _ => Toy.entry1⟩
+
+open Marwood.Vm.Toy in
+/-- the evaluation really reaches HALT (seven instructions), so the theorem applies non-vacuously -/
+example : ∃ s', runEval Toy.ops id none 20 (prepare Toy.idle 1) = .value s' ∧ s'.stack.sp = 0 := by
+  refine ⟨_, rfl, ?_⟩
+  decide +kernel
+
+open Marwood.Vm.Toy in
+example : (runHistory Toy.ops id [⟨1, 20⟩, ⟨1, 20⟩, ⟨9, 20⟩, ⟨1, 20⟩] Toy.idle).stack.sp = 0 := by
+  decide +kernel
 
 end Marwood.Proofs.C07
